@@ -149,7 +149,7 @@ package types
 //@ interface SegmentWriter.Append
 //@   assigns self.last, self.sealed, self.indexStart
 //@   ensures result != nil ==> self.last == old(self.last) && self.sealed == old(self.sealed)
-//@   ensures old(self.sealed) ==> result != nil
+//@   ensures old(self.sealed) && len(entries) > 0 ==> result != nil
 //@   ensures result == nil && len(entries) > 0 ==> self.last == entries[len(entries)-1].Index
 //@   ensures[C05.append-consecutive] result == nil && len(entries) > 0 ==> entries[0].Index >= self.base && entries[0].Index > old(self.last)
 //@        && (forall j int :: 0 <= j && j < len(entries) ==> entries[j].Index == entries[0].Index + uint64(j)) && self.last >= entries[0].Index
@@ -181,7 +181,7 @@ package types
 //@ -- a recovered tail serves [base, last]; it may be sealed already (the crash
 //@ -- or Close happened after the sealing append, before the rotation committed).
 //@ -- [assumed-C01]: every acknowledged entry is recovered, so a tail that was
-//@ -- head-truncated to MinIndex still reaches MinIndex, and its file exists. [C03.sealed-nonempty]: an
+//@ -- head-truncated to MinIndex still reaches MinIndex, and its file exists. [assumed-sealed-nonempty]: an
 //@ -- index block is only written by an append, after at least one entry.
 //@ interface SegmentFiler.RecoverTail
 //@   assigns g_open
@@ -189,7 +189,7 @@ package types
 //@   ensures[assumed-C01] result1 == nil ==> (result0.last == 0 || result0.last >= info.MinIndex) && (info.MinIndex > info.BaseIndex ==> result0.last >= info.MinIndex)
 //@   ensures[assumed-C01] errors.Is(result1, os.ErrNotExist) ==> info.MinIndex == info.BaseIndex
 //@   ensures[assumed-headroom] result1 == nil ==> result0.last < 0xffffffffffffff00
-//@   ensures[C03.sealed-nonempty] result1 == nil && result0.sealed ==> result0.last != 0
+//@   ensures[assumed-sealed-nonempty] result1 == nil && result0.sealed ==> result0.last != 0
 //@ interface SegmentFiler.Open
 //@   assigns g_open
 //@   ensures result1 == nil ==> result0 != nil
